@@ -711,5 +711,5 @@ def main(tier, seed, keep=False):
     mods, extra = gen(tier, seed)
     # the crate root renames `std`: an absolute `::std::..` path in generated code no longer resolves (what `#![no_std]` would do),
     # while the prelude and the harness code (which say `stdx`) are unaffected
-    return run_e1('C19', tier, seed, mods, RULE, BOUNDS, ASSUME, need_stubbing=True, keep=keep, harness_timeout=300 if tier == 'quick' else 900, extra=extra,
+    return run_e1('C19', tier, seed, mods, RULE, BOUNDS, ASSUME, need_stubbing=True, keep=keep, harness_timeout=600 if tier == 'quick' else 1200, extra=extra,
                   lib_attrs='extern crate educe as std;\n')
